@@ -745,10 +745,14 @@ def run(run):
     # (1) delimited multi-row loaders: breadth-first over rows
     for loader in ("events", "labeled_events", "intervals", "labeled_intervals", "valued_intervals", "time_series"):
         A = row_alphabet(loader, phase, tier)
-        files = two_row_files(A, all_pairs=thorough)
+        files = two_row_files(A)
         run.explore("files<=2rows:" + loader, mod, "shard_files",
                     _shards(run, files, 48, loader=loader, styles=all_styles, ios=ios, lite=not thorough))
         if thorough:
+            seen = set(files)
+            rest = [f for f in two_row_files(A, all_pairs=True) if f not in seen]
+            run.explore("files=2rows,all-pairs:" + loader, mod, "shard_files",
+                        _shards(run, rest, 64, loader=loader, styles=few_styles, ios=[["sio"]] * 4, lite=True))
             A3 = sub_alphabet(row_alphabet(loader, phase, "quick"), 9)
             files = list(sequences(A3, 3, 3))
             run.explore("files=3rows:" + loader, mod, "shard_files",
@@ -779,8 +783,7 @@ def run(run):
     if thorough:
         tfiles += [(a, b, c) for a in trows[:3] for b in trows[:3] for c in trows[:3]]
     run.explore("files:tempo", mod, "shard_files",
-                _shards(run, tfiles, 48, loader="tempo", styles=all_styles if thorough else few_styles, ios=ios_all,
-                        lite=not thorough))
+                _shards(run, tfiles, 48, loader="tempo", styles=few_styles, ios=ios_all, lite=not thorough))
 
     # (4) ragged time series
     for dtype in ("float", "int"):
@@ -795,10 +798,16 @@ def run(run):
             for vs in itertools.product(tvals[:3] if k == 3 else tvals, repeat=k):
                 rrows.append((base_t,) + vs)
         rrows = [rrows[len(times)]] + rrows[:len(times)] + rrows[len(times) + 1:]     # base row first: (t,) alone
-        rfiles = two_row_files(rrows, all_pairs=thorough)
+        rfiles = two_row_files(rrows)
         run.explore("files<=2rows:ragged,%s" % dtype, mod, "shard_files",
                     _shards(run, rfiles, 48, loader="ragged_time_series", styles=all_styles if thorough else few_styles,
                             ios=ios, lite=True, extra={"dtype": dtype}))
+        if thorough:
+            seen = set(rfiles)
+            rest = [f for f in two_row_files(rrows, all_pairs=True) if f not in seen]
+            run.explore("files=2rows,all-pairs:ragged,%s" % dtype, mod, "shard_files",
+                        _shards(run, rest, 64, loader="ragged_time_series", styles=few_styles, ios=[["sio"]] * 4,
+                                lite=True, extra={"dtype": dtype}))
         # header=True: first physical line is a header (textual, or numeric-looking)
         hfiles = two_row_files(sub_alphabet(rrows, 15 if thorough else 8), all_pairs=thorough)
         for htext in (["time", "f0"], ["0", "1", "2"]):
